@@ -214,6 +214,22 @@ def run(ck):
                 at = r.term.single_atom() if r.term is not None else None
                 ok = at is not None and isinstance(at, T.App) and at.op == "bern" and at.args[0] == T.const(T.Fraction(1, 2))
                 ck.check(ok, "C05.R4", inst + ":uniform bits", ssite, "default start state is not a Bernoulli(0.5) draw: %r" % (r.term,))
+    # ------------------------------------------------------------------ R5 history independence (two-call protocol)
+    from .history import check_history, havoc_module
+
+    for cls in ("BinaryRBM", "PurificationRBM"):
+        def mkr(it, cls=cls):
+            return (make_rbm(it, cls, "rbm_am"), tens(it, "init", ("B", "nv")))
+
+        check_history(ck, "C05.R5", "%s.gibbs_steps/overwrite=False" % cls, prog.method(cls, "gibbs_steps").site(), mkr,
+                      lambda it, c: call(it, c[0], "gibbs_steps", VConst(2), c[1], overwrite=VConst(False)), havoc=lambda it, m: havoc_module(it, m, "rbm_am"))
+    for scls in ("PositiveWaveFunction", "ComplexWaveFunction", "DensityMatrix"):
+        def mks(it, scls=scls):
+            return (make_state(it, scls), tens(it, "init", ("B", "nv")))
+
+        check_history(ck, "C05.R5", "%s.sample/overwrite=False" % scls, prog.method(scls, "sample").site(), mks,
+                      lambda it, c: call(it, c[0], "sample", VConst(2), initial_state=c[1], overwrite=VConst(False)))
+    ck.require_min("C05.R5", 10)
     ck.require_min("C05.R1", 30)
     ck.require_min("C05.R2", 30)
     ck.require_min("C05.R3", 20)
